@@ -7,6 +7,7 @@ toolchain go1.23.5
 require (
 	github.com/anishathalye/porcupine v1.3.0
 	golang.org/x/tools v0.31.0
+	gopkg.in/yaml.v3 v3.0.1
 )
 
 require (
